@@ -44,7 +44,7 @@ def rule(tier):
 def floors(tier):
     return {"evaluations": 20_000 if tier == "quick" else 150_000, "distinct": 15_000 if tier == "quick" else 100_000,
             "counters": {"date_cells_open": 5000, "date_cells_reloaded": 5000, "duration_cells_open": 10_000, "duration_cells_reloaded": 10_000, "composites": 500,
-                         "quoted_composites": 100, "auto_unit_cells": 300, "W_months_checked": 20, "unit_pairs": 21},
+                         "quoted_composites": 100, "date_cells_in_two_table_documents": 1500, "auto_unit_cells": 300, "W_months_checked": 20, "unit_pairs": 21},
             "hist_sizes": {"directive": 36}}
 
 
@@ -84,6 +84,8 @@ def plan(tier, seed):
     for (li, si) in pairs:
         specs.append({"part": "durations", "li": li, "si": si, "n": 1500 if tier == "quick" else 16000, "tier": tier, "seed": seed})
     specs.append({"part": "auto", "n": 3000 if tier == "quick" else 20000, "tier": tier, "seed": seed})
+    for i in range(4 if tier == "quick" else 16):
+        specs.append({"part": "two", "stream": i, "n": 60 if tier == "quick" else 1000, "tier": tier, "seed": seed})
     return specs
 
 
@@ -106,8 +108,9 @@ def enc_t(t):
     return [t.year, t.month, t.day, t.hour, t.minute, t.second, t.microsecond]
 
 
-def run_date_cells(cases, rec, tag):
-    """cases: list of {"fmt": str, "parts": [[kind, text]...], "t": [..], "custom": bool}."""
+def run_date_cells(cases, rec, tag, two=None, order=None):
+    """cases: list of {"fmt": str, "parts": [[kind, text]...], "t": [..], "custom": bool}.  two = "table" | "sheet": the same
+    cases are also placed, in the given order, in a second table (of the same or of another sheet) of the same document."""
     from numbers_parser import Document
     from vf.ref import datefmt
     ncols = 8
@@ -115,13 +118,21 @@ def run_date_cells(cases, rec, tag):
     with warnings.catch_warnings():
         warnings.simplefilter("ignore")
         doc = Document(num_rows=max(1, nrows), num_cols=ncols, num_header_rows=0, num_header_cols=0)
-        tb = doc.sheets[0].tables[0]
+        tables = [doc.sheets[0].tables[0]]
+        if two == "table":
+            tables.append(doc.sheets[0].add_table("Second", num_rows=max(1, nrows), num_cols=ncols))
+        elif two == "sheet":
+            doc.add_sheet("Other", "Second", num_rows=max(1, nrows), num_cols=ncols)
+            tables.append(doc.sheets[1].tables[0])
         customs = {}
         placed = []
-        for i, cs in enumerate(cases):
-            r, c = divmod(i, ncols)
+        seqs = [(0, i, i) for i in range(len(cases))] + ([(1, slot, i) for slot, i in enumerate(order)] if two else [])
+        for ti, slot, i in seqs:
+            cs = cases[i]
+            tb = tables[ti]
+            r, c = divmod(slot, ncols)
             t = datetime(*cs["t"])
-            case = {"part": "date", **cs}
+            case = {"part": "date", **cs} if not two else {"part": "dates-two", "cases": cases, "order": order, "two": two}
             try:
                 tb.write(r, c, t)
                 if cs["custom"]:
@@ -133,7 +144,7 @@ def run_date_cells(cases, rec, tag):
             except Exception as e:  # noqa: BLE001
                 rec.violation("format_refused", {"kind": "date", "exc": type(e).__name__, "custom": cs["custom"]}, {"fmt": cs["fmt"], "msg": str(e)[:200]}, case=case)
                 continue
-            placed.append((r, c, cs, t, case))
+            placed.append((ti, r, c, cs, t, case))
 
         def judge(cell, cs, t, case, view):
             try:
@@ -164,25 +175,27 @@ def run_date_cells(cases, rec, tag):
                 rec.violation("date_rendering", fields, {"fmt": cs["fmt"], "t": str(t), "got": text, "want": sorted(want)[:4]}, case=case)
             return text
         open_texts = {}
-        for r, c, cs, t, case in placed:
-            open_texts[(r, c)] = judge(tb.cell(r, c), cs, t, case, "open")
+        for ti, r, c, cs, t, case in placed:
+            open_texts[(ti, r, c)] = judge(tables[ti].cell(r, c), cs, t, case, "open" + ("/second-table" if ti else ""))
             rec.count("date_cells_open")
+            if two:
+                rec.count("date_cells_in_two_table_documents")
         try:
             doc2 = save_reopen(doc, tag)
         except Exception as e:  # noqa: BLE001
             rec.violation("save_or_reopen_raised", {"kind": "date", "exc": type(e).__name__}, {"msg": str(e)[:300]}, case={"part": "dates-doc", "cases": cases[:2]})
             return {}
-        t2 = doc2.sheets[0].tables[0]
+        tables2 = [doc2.sheets[0].tables[0]] + ([doc2.sheets[0].tables[1]] if two == "table" else [doc2.sheets[1].tables[0]] if two == "sheet" else [])
         texts = {}
-        for r, c, cs, t, case in placed:
-            cell = t2.cell(r, c)
+        for ti, r, c, cs, t, case in placed:
+            cell = tables2[ti].cell(r, c)
             if cell.value != t:
                 rec.violation("stored_value_changed", {"kind": "date"}, {"written": str(t), "read": str(cell.value)}, case=case)
                 continue
-            text = judge(cell, cs, t, case, "reloaded")
+            text = judge(cell, cs, t, case, "reloaded" + ("/second-table" if ti else ""))
             rec.count("date_cells_reloaded")
             texts[(cs["fmt"], tuple(cs["t"]))] = text
-            o = open_texts.get((r, c))
+            o = open_texts.get((ti, r, c))
             if o is not None and text is not None and o != text:
                 rec.violation("open_vs_reloaded_text", {"kind": "date", "open_is_str_of_value": o == str(t)}, {"fmt": cs["fmt"], "open": o, "reloaded": text}, case=case)
     return texts
@@ -262,6 +275,24 @@ def rand_composite(rng):
     if not custom and rng.random() < .3:
         custom = True  # the same unquoted format through the custom-format path
     return parts, custom, datefmt.format_string([tuple(p) for p in parts])
+
+
+def run_two(spec, rec):
+    """The same date formats (built-in strings and custom formats) in two tables of one document, in another order in the second."""
+    from vf.gen import values as V
+    rng = random.Random(f"C14-two-{spec['seed']}-{spec['stream']}")
+    for j in range(spec["n"]):
+        cases = []
+        for _ in range(rng.randint(4, 10)):
+            parts, custom, fmt = rand_composite(rng)
+            t = V.rand_datetime(rng).replace(microsecond=0)
+            cases.append({"fmt": fmt, "parts": parts, "t": enc_t(t), "custom": custom})
+        order = list(range(len(cases)))
+        rng.shuffle(order)
+        run_date_cells(cases, rec, f"two{spec['stream']}-{j}", two=rng.choice(["table", "table", "sheet"]), order=order)
+        rec.case(("two", spec["stream"], j))
+        if j == 0:
+            rec.sample({"two_tables": [c["fmt"] for c in cases], "order_in_second_table": order})
 
 
 def run_composites(spec, rec):
@@ -404,7 +435,7 @@ def run_shard(spec, rec):
         for c in spec["cases"]:
             replay(c, rec)
         return
-    {"dates": run_dates, "composites": run_composites, "durations": run_durations, "auto": run_auto}[spec["part"]](spec, rec)
+    {"dates": run_dates, "composites": run_composites, "durations": run_durations, "auto": run_auto, "two": run_two}[spec["part"]](spec, rec)
 
 
 def replay(case, rec):
@@ -420,5 +451,8 @@ def replay(case, rec):
         run_dates({"i": 0, "k": 8, "tier": "quick", "seed": 0}, rec)
     elif p in ("dates-doc",):
         run_date_cells(case["cases"], rec, "replay")
+    elif p == "dates-two":
+        run_date_cells(case["cases"], rec, "replay", two=case["two"], order=case["order"])
+        rec.case(("replay-two", str(case["order"])))
     elif p in ("durations-doc",):
         run_duration_cells(case["cases"], rec, "replay")
